@@ -8,8 +8,8 @@ package archiver
 //@ func copyWithTimeout
 //@   property C10
 //@   opaque
-//@   sweep idx slice div
+//@   sweep idx slice div assert
 //@ func copyWithTimeoutN
 //@   property C10
 //@   opaque
-//@   sweep idx slice div
+//@   sweep idx slice div assert
